@@ -348,9 +348,15 @@ def m3(ck, em, rng, ntraces):
                 top = float(np.max(np.abs(sa_))) + 1e-300
                 fact("MachinesEqArrays.near_duplicates", sm.shape == sa_.shape and np.max(np.abs(sm - sa_)) <= 1e-9 * top
                      and np.max(np.abs(one - sa_)) <= 1e-9 * top, normalised=nrm, machines=sm.tolist(), arrays=sa_.tolist())
-                fact("LinearInOffset.small_steps", abs(float(sa_[1, 0]) - 1e-7 * float(sa_[3, 0])) <= 1e-6 * abs(1e-7 * float(sa_[3, 0])) + 1e-300
-                     and abs(float(sm[1, 0]) - 1e-7 * float(sm[3, 0])) <= 1e-6 * abs(1e-7 * float(sm[3, 0])) + 1e-300,
-                     normalised=nrm, step_1e_7=float(sm[1, 0]), step_1=float(sm[3, 0]))
+                # (tolerance: 1e-6 of the step's own scale, plus the rounding of forming mu + h d in double precision,
+                # eps |mu| per element, carried through the formula -- the score itself may be a small difference of
+                # large terms, so it is no yardstick; corrected after a false alarm in the thorough tier)
+                resid = np.abs(np.asarray(stats.sum_px) - np.asarray(stats.n)[:, None] * (mu + off)) / var
+                div = float(n) if nrm else 1.0
+                tol_s = (1e-6 * 1e-7 * float(np.sum(np.abs(dirn) * resid)) + 16 * np.finfo(float).eps * float(np.sum(np.abs(mu) * resid))) / div
+                fact("LinearInOffset.small_steps", abs(float(sa_[1, 0]) - 1e-7 * float(sa_[3, 0])) <= tol_s
+                     and abs(float(sm[1, 0]) - 1e-7 * float(sm[3, 0])) <= tol_s,
+                     normalised=nrm, step_1e_7=float(sm[1, 0]), step_1=float(sm[3, 0]), tolerance=tol_s)
             # the storage type of the UBM's parameters is not part of the formula: a UBM whose (float32-representable)
             # means are kept in single precision scores double-precision models like the same UBM kept in double
             # precision; models a small step away from a UBM far from the origin make any rounding of the model visible
